@@ -95,6 +95,13 @@ CHECKS.update({
   text="TLC explores the bounded generator design (<=3-4 types, <=3 nested namespaces, 4 targets, 8 ambient pairs, all iteration orders) exhaustively and reports which ambient-to-content flows exist; each witness is replayed against the real CLI under the two ambient states or 5-9 hash seeds; hundreds (thorough: thousands) of real runs - 4 targets, 34 option sets, subprocess / long-lived worker / in-process, patched clock + TZ, hash seeds, cwd, three absolute locations of different length - are judged by the same P-layer (first[inputs, options] must equal every later run). A campaign with auditing enabled may differ and is accepted.",
   note=TB + "sha256; the launcher's clock patch (self-tested); one Python 3.12, one PyDSDL, one platform (locale, umask, Python version not varied)."),
 })
+
+CHECKS.update({
+ "C12": dict(cat="model_checking", ref="DESIGN.md §6 C12",
+  technique="TLA+ model of the output directory under run histories (four actions per file: overwrite gate, open/truncate, write, set mode; exhaustive I=>P, closed over unbounded histories) + behaviour replay through the nnvg CLI as an unprivileged uid + trace validation of every observed step",
+  text="TLC proves for the bounded implementation-shaped model (3 files incl. a copied support file, modes {444,644}, ~85 option sets, foreign / chmod / remove environment actions) that every run end satisfies the property, with three negative controls refuted; all 2-run (thorough: 3-run) histories and hundreds to thousands of simulated and random 3-9 step histories are replayed into one directory through nunavut.cli.main() in forked processes running as uid 65534 (root ignores read-only bits) and through real subprocesses, the (sha256, st_mode) snapshot after every step compared with the model and judged by the trace spec.",
+  note=TB + "fresh reference = same invocation into an empty directory; harness-injected copied support resource; files owned by the caller, umask 022, tree quiescent (the check exits 2 if the tree changes during a run)."),
+})
 NOT_YET = {}
 props = [json.loads(l) for l in open(V / "properties.jsonl")]
 checks, na = [], []
